@@ -122,12 +122,21 @@ def nameKeyLe (a b : NameRec) : Bool :=
   let kb := [b.pid, b.eid, b.lang, b.nid, b.len]
   decide (ka ≤ kb)
 
+/-- insert `r` in front of the first element that is not smaller (stable for an `r` that preceded them) -/
+def insertRec (r : NameRec) : List NameRec → List NameRec
+  | [] => [r]
+  | x :: xs => if nameKeyLe r x then r :: x :: xs else x :: insertRec r xs
+
+/-- stable insertion sort by the key -/
+def sortRecs : List NameRec → List NameRec
+  | [] => []
+  | r :: rest => insertRec r (sortRecs rest)
+
 /-- the retained records in output order.  `sort_unstable_by_key` is modelled by a stable sort: records that
 tie on the whole key are indistinguishable in the output except for their string, and the harness never
-builds more than 20 retained records with such ties (the range where Rust's implementation is an insertion
-sort) -/
+builds retained records with such ties -/
 def nameRetained (flags : Nat) (nameIds langs : List Nat) (recs : List NameRec) : List NameRec :=
-  (recs.filter (nameKeeps flags nameIds langs)).mergeSort nameKeyLe
+  sortRecs (recs.filter (nameKeeps flags nameIds langs))
 
 /-- the packed string objects so far, in packing order (distinct) -/
 abbrev Packed := List Bytes
